@@ -116,8 +116,8 @@ Lemma steps_sec ks : fold_right (fun k acc => steps k + acc)%nat 1%nat ks = (ste
 Proof. unfold steps_list. induction ks as [|k ks IH]; cbn [fold_right]; [reflexivity|]. rewrite IH. lia. Qed.
 
 Lemma ready_next p E ln ca :
-  pelems p = E -> rpost p = [] -> plen p = 0 -> pkeep p = false -> ready (mkPst ln ca p 0 0) E.
-Proof. unfold ready. cbn. auto. Qed.
+  pelems p = E -> rpost p = [] -> plen p = 0 -> pkeep p = false -> pbin p = false -> ready (mkPst ln ca p 0 0) E.
+Proof. unfold ready. cbn. intuition auto. Qed.
 
 Lemma removelast_app1 {A} (l : list A) x : removelast (l ++ [x]) = l.
 Proof. apply removelast_last. Qed.
@@ -140,7 +140,7 @@ Section Run.
   Proof.
     intros depth WF k s prev b fuel E RD OK. cbn [strip wf_item] in WF. apply andb_true_iff in WF. destruct WF as [WN WV].
     apply wf_name_wfn in WN.
-    destruct (option_line a d n v k s E WN WV RD) as (s1 & E1 & Q1 & Q2 & Q3 & Q4).
+    destruct (option_line a d n v k s E WN WV RD) as (s1 & E1 & Q1 & Q2 & Q3 & Q4 & QB).
     cbn [steps print_pre Nat.add]. unfold loop. cbn [config_loop next_elem]. rewrite E1.
     assert (R37 : (match v with [] => 3 | _ => 7 end) = 3 /\ v = [] \/ (match v with [] => 3 | _ => 7 end) = 7 /\ v <> []).
     { destruct v; [left|right]; split; auto; discriminate. }
@@ -165,7 +165,8 @@ Section Run.
     replace (dd <? 0) with false by (symmetry; apply Z.ltb_ge; lia).
     rewrite Q2. eexists _, 11, _. split; [reflexivity|].
     split.
-    { apply ready_next; auto; [rewrite PE1, Q1; apply removelast_app1|eapply path_del_keep; eassumption]. }
+    { apply ready_next; auto; [rewrite PE1, Q1; apply removelast_app1|eapply path_del_keep; eassumption|
+                                rewrite (pbin_del _ _ _ PD); exact QB]. }
     destruct (lb_nonempty _ _ OK) as (p & rest & LB). rewrite LB.
     split; [|split; [reflexivity|]].
     - split; [discriminate|]. split; [discriminate|]. intros _. eauto.
@@ -222,7 +223,7 @@ Section Run.
     destruct (IK depth WK (lead dc ++ hws (d_trail dc) ++ [125] ++ k) s2 (Z.lor PSection PName) b1 (1 + fuel)%nat (E ++ [n]) R2 O2)
       as (s3 & prev3 & b3 & E3 & R3 & O3 & L3).
     fold loop. rewrite E3. unfold loop. cbn [Nat.add config_loop next_elem].
-    destruct (section_end a dc k s3 (E ++ [n]) R3) as (s4 & E4 & P4 & C4).
+    destruct (section_end a dc k s3 (E ++ [n]) R3) as (s4 & E4 & P4 & C4 & QB4).
     change ([125] ++ k) with (125 :: k). rewrite E4.
     change (PSectEnd <=? 0) with false. change (negb (Z.land PSectEnd PData =? 0)) with false. cbv iota.
     rewrite (node_append_end b3 prev3 _ _ O3).
@@ -233,7 +234,8 @@ Section Run.
     replace (dd <? 0) with false by (symmetry; apply Z.ltb_ge; lia).
     rewrite C4. eexists _, PSectEnd, _. split; [reflexivity|].
     split.
-    { apply ready_next; auto; [rewrite PE1, P4; apply removelast_app1|eapply path_del_keep; eassumption]. }
+    { apply ready_next; auto; [rewrite PE1, P4; apply removelast_app1|eapply path_del_keep; eassumption|
+                                rewrite (pbin_del _ _ _ PD); exact QB4]. }
     (* the builder *)
     destruct (lb_nonempty _ _ OK) as (p & rest & LB).
     assert (L4 : lb prev3 b3 = mkFrame n None (rev (map abs_item (map strip ks))) :: p :: rest).
